@@ -320,6 +320,10 @@ def run(ctx: Ctx):
     ctx.include(_c05_run, {"C05-R1", "C05-R4"}, "C19-G4b",
                 "the connection reader cannot spin for ever or end silently (a spinning reader "
                 "thread outlives its connection)", floor=2)
+    ctx.include(_c14_run, {"C14-R1"}, "C19-G4f",
+                "the connection thread - the only place where sockets are closed and table entries "
+                "removed - cannot be ended by a fault of the fault model", floor=7,
+                constructs=lambda c: "_handle_connections" in c)
     ctx.include(_c14_run, {"C14-R2", "C14-R3"}, "C19-G4c",
                 "thread slots are returned; workers are started once and stopped by their owner", floor=8)
     from .common_node import connect_failure_closes, route_lists_not_aliased
